@@ -1,19 +1,41 @@
 #!/bin/bash
-# Full .vo build of the Coq development, or of the given targets (with their dependencies).
-# Serialised with a lock: several checks may run concurrently.
+# Full .vo build of the Coq development (no arguments) or of the given .vo targets with
+# their dependencies.  Own tiny Makefile instead of coq_makefile so that a file that does
+# not even lex (someone else's work in progress) cannot break the dependency scan of the
+# targets that do not depend on it.  Only the dependency scan is serialised with a lock;
+# compilation runs concurrently (each check builds its own directory).
 set -e
 cd "$(dirname "$0")"
-exec 9>.build.lock
-flock 9
-{ cat _CoqProject.head; find theories -name '*.v' | sort; } > _CoqProject.new
-if ! cmp -s _CoqProject.new _CoqProject 2>/dev/null || [ ! -f Makefile.coq ]; then
-  mv _CoqProject.new _CoqProject
-  coq_makefile -f _CoqProject -o Makefile.coq >/dev/null
-else
-  rm -f _CoqProject.new
-fi
+mkdir -p .deps.d
+(
+  flock 9
+  for f in $(find theories -name '*.v' | sort); do
+    d=".deps.d/$(echo "$f" | tr '/' '_').d"
+    if [ ! -f "$d" ] || [ "$f" -nt "$d" ]; then
+      coqdep -Q theories PV "$f" 2>/dev/null > "$d.tmp" || echo "# coqdep failed: $f" > "$d.tmp"
+      mv "$d.tmp" "$d"
+    fi
+  done
+  # drop dependency files of deleted sources
+  for d in .deps.d/*.d; do
+    [ -e "$d" ] || continue
+    src=$(head -1 "$d" | sed -n 's/^\(theories[^ ]*\)\.vo .*/\1.v/p')
+    [ -n "$src" ] && [ ! -f "$src" ] && rm -f "$d"
+  done
+  cat .deps.d/*.d > .deps.new 2>/dev/null || : > .deps.new
+  mv .deps.new .deps
+  cat > Makefile.mini <<'MK'
+COQFLAGS := -q -Q theories PV -w -notation-overridden,-deprecated-hint-without-locality,-deprecated-syntactic-definition,-ambiguous-paths
+VFILES := $(shell find theories -name '*.v' | sort)
+all: $(VFILES:.v=.vo)
+%.vo: %.v
+	@echo COQC $<
+	@timeout 1500 coqc $(COQFLAGS) $<
+include .deps
+MK
+) 9>.build.lock
 if [ $# -eq 0 ]; then
-  timeout 3000 make -f Makefile.coq -j16 2>&1
+  timeout 3000 make -f Makefile.mini -j16 all 2>&1
 else
-  timeout 3000 make -f Makefile.coq -j16 "$@" 2>&1
+  timeout 3000 make -f Makefile.mini -j8 "$@" 2>&1
 fi
